@@ -69,7 +69,7 @@ _sq = Stream('seqscope', 'h_core', mode='modelrace', gen=gen_seq, per_process=Tr
              nontrivial=lambda case, out: case.count('; sd ') >= 2 and case.count('; ts') >= 1 and 'c' in out)
 _sq.model_case = coregen.model_case
 # collectors and threads are referred to by number: a shrunk history keeps their creation
-for _s in (_st, _sq): _s.shrink_keep = lambda op: op.startswith('nc ') or op == 'ts' or op.startswith('static=')
+for _s in (_st, _sq): _s.shrink_keep = lambda op: op.startswith('nc ') or op.startswith('ncs ') or op == 'ts' or op.startswith('static=')
 
 PROPERTY = {
     'manifest': {
